@@ -810,6 +810,31 @@ func (x *Exec) jump(st *State, fr *Frame, b *ssa.BasicBlock) bool {
 				}
 			}
 		}
+		// structural fact for counting loops: a variable that starts at a constant and is only ever
+		// incremented by a positive constant inside the loop is never below its start value (wrap-around
+		// would take 2^63 iterations)
+		for phi, v := range phiVals {
+			if phi.Comment == "rangeindex" || v.T.Sort != SInt || len(phi.Edges) != 2 {
+				continue
+			}
+			var start *ssa.Const
+			stepOK := false
+			for ei, e := range phi.Edges {
+				pred := b.Preds[ei]
+				if ld.body[pred.Index] {
+					if add, ok := e.(*ssa.BinOp); ok && add.Op == token.ADD && add.X == ssa.Value(phi) {
+						if k, ok := add.Y.(*ssa.Const); ok && k.Value != nil && k.Int64() > 0 {
+							stepOK = true
+						}
+					}
+				} else if c, ok := e.(*ssa.Const); ok && c.Value != nil {
+					start = c
+				}
+			}
+			if start != nil && stepOK {
+				st.assume(App(SBool, ">=", v.T, IntLit(start.Int64())))
+			}
+		}
 		vars = x.phiScope(b, phiVals)
 		// a source variable merged at the loop head now has the (arbitrary) value of its phi: local(name)
 		// must not keep referring to the value it had before the loop
@@ -1331,9 +1356,24 @@ func (x *Exec) noPanic(fr *Frame) bool {
 	return ok
 }
 
+// noPanicKind: `no_panic` alone covers every kind of run-time check; `no_panic index, slice, divzero`
+// restricts the F2 obligations to the listed kinds (the others are then assumptions of the claim).
+func (x *Exec) noPanicKind(kind string) bool {
+	v := strings.TrimSpace(x.TopC.Flags["no_panic"])
+	if v == "" {
+		return true
+	}
+	for _, k := range strings.Fields(strings.ReplaceAll(v, ",", " ")) {
+		if k == kind {
+			return true
+		}
+	}
+	return false
+}
+
 // safety emits an F2 obligation when the function under contract demands no_panic.
 func (x *Exec) safety(st *State, fr *Frame, in ssa.Instruction, kind string, cond Term) {
-	if x.noPanic(fr) {
+	if x.noPanic(fr) && x.noPanicKind(kind) {
 		x.emit(st, fr, "F2", x.siteLabel(fr, in, kind), cond, in)
 	}
 	// execution continues past a run-time check only when it passed
